@@ -176,7 +176,10 @@ class Run10:
             if isinstance(a, (list, tuple)):
                 return ('seq',) + tuple(kd(x) for x in a)
             if callable(a):
-                return ('callable',)
+                try:
+                    return ('callable', kd(a()))        # zero-argument callable operand: look at what it returns
+                except Exception:
+                    return ('callable',)
             return ('num',)
         sym = None
         if op['kind'] == 'meth':
